@@ -183,6 +183,8 @@ Proof.
   - destruct (walk _ _ _ _ _ _ _ _) as [t rl1]. intros H. inversion H; subst. exact Hsame.
   - (* reset: the read-op pool is emptied, no handle is added *)
     intros H. inversion H; subst. cbn [rs_handles]. rewrite skipn_nil. constructor.
+  - (* ResetReadLimit / Unread: handles unchanged *) intros H. inversion H; subst. exact Hsame.
+  - intros H. inversion H; subst. exact Hsame.
 Qed.
 
 (* ------------------------------------------------------------------ constructors *)
